@@ -730,6 +730,9 @@ func (fr *Frame) evalCall(e *CExpr, env *Env, hint *Sort) *GVal {
 			return tv(App("stdin.bytes", bs.S))
 		}
 		return tv(App("stdin.ok", SBool))
+	case "goLen", "goDepth":
+		ex.p.DeclareFun(e.Name, []*Sort{SVal}, SInt)
+		return tv(App(e.Name, SInt, arg(0, SVal)))
 	case "runesOf":
 		si := w.sliceSort(SBV32)
 		ex.p.DeclareFun("gs.to_"+sortIdent(SBV32), []*Sort{SStr}, si.S)
